@@ -1,1 +1,146 @@
+(* C15 — The built-in targets return the log-density their documentation states (2-D Gaussian
+   normalised and unnormalised forms differing by a constant, batched and single-point
+   evaluations agreeing, Rosenbrock forms), and the gradient handed to HMC/NUTS is the true
+   gradient of that log-density.  The isotropic Gaussian proposal's logp(from, to) is the
+   normalised log-density of the very distribution its sample draws from (mean `from`, standard
+   deviation std per coordinate), symmetric in its arguments.
+   Model: Model/Density.v, generic over a number record and instantiated here at dnumR (real
+   arithmetic: tadd = Rplus, tsub = Rminus, tmul = Rmult, tdiv = Rdiv, tofZ = IZR, tln = ln,
+   dpi = PI, dabs = Rabs).  Covariance [[a,b],[c,d]], mean (m0,m1), point (x0,x1).  The batched
+   and the single-point evaluations of the library are the same formula (dg_logp / g2_logp) applied
+   row by row, so one statement covers both.  Derivatives are Coquelicot's is_derive. *)
 From MiniMcmc Require Import Model.Density.
+From MiniMcmc Require Import Proofs.Density.
+From Coq Require Import Reals Lra.
+From Coquelicot Require Import Coquelicot.
+Open Scope R_scope.
+
+(* ---- (1) normalised - unnormalised 2-D Gaussian = a constant not depending on the point ---- *)
+Theorem C15_gauss_norm_vs_unnorm : forall m0 m1 a b c d x0 x1 : R,
+  g2_logp dnumR m0 m1 a b c d x0 x1 - g2_unnorm dnumR m0 m1 a b c d x0 x1
+  = - ln (2 * PI) - / 2 * ln (Rabs (a * d - b * c)).
+Proof. exact g2_norm_vs_unnorm. Qed.
+
+(* ---- (2) DiffableGaussian2D (inverse covariance and normalising constant as `new` computes
+   them) is the normalised 2-D Gaussian log-density ---- *)
+Theorem C15_diffable_is_gauss : forall m0 m1 a b c d x0 x1 : R,
+  0 < a * d - b * c ->
+  dg_logp dnumR m0 m1 a b c d x0 x1 = g2_logp dnumR m0 m1 a b c d x0 x1.
+Proof. exact dg_is_g2. Qed.
+
+(* ---- (3) for a symmetric covariance with positive determinant this is the textbook
+   bivariate normal log-density  -ln(2 pi) - 1/2 ln det - 1/2 (x-m)^T Sigma^-1 (x-m) ---- *)
+Theorem C15_gauss_is_gaussian_density : forall m0 m1 a b d x0 x1 : R,
+  0 < a * d - b * b ->
+  g2_logp dnumR m0 m1 a b b d x0 x1
+  = - ln (2 * PI) - / 2 * ln (a * d - b * b)
+    - / 2 * ((d * (x0 - m0) ^ 2 - 2 * b * (x0 - m0) * (x1 - m1) + a * (x1 - m1) ^ 2)
+             / (a * d - b * b)).
+Proof. exact g2_textbook. Qed.
+
+(* ---- (4) the gradients handed to HMC/NUTS are the true partial derivatives ---- *)
+Theorem C15_gradients :
+  (forall m0 m1 a b c d x0 x1 : R, a * d - b * c <> 0 ->
+     is_derive (fun t => dg_logp dnumR m0 m1 a b c d t x1) x0
+               (fst (dg_grad dnumR m0 m1 a b c d x0 x1)) /\
+     is_derive (fun t => dg_logp dnumR m0 m1 a b c d x0 t) x1
+               (snd (dg_grad dnumR m0 m1 a b c d x0 x1))) /\
+  (forall a b x y : R,
+     is_derive (fun t => rb2_logp dnumR a b t y) x (fst (rb2_grad dnumR a b x y)) /\
+     is_derive (fun t => rb2_logp dnumR a b x t) y (snd (rb2_grad dnumR a b x y))).
+Proof.
+  split; [intros; split; [apply dg_grad_fst | apply dg_grad_snd]; assumption
+         | intros; split; [apply rb2_grad_fst | apply rb2_grad_snd]].
+Qed.
+
+(* Rosenbrock forms: 2-D  -((a-x)^2 + b (y-x^2)^2);  the N-D form at n = 2 is the 2-D form with
+   a = 1, b = 100;  at n = 3 the documented sum over consecutive pairs *)
+Theorem C15_rosenbrock_forms :
+  (forall a b x y : R, rb2_logp dnumR a b x y = - ((a - x) ^ 2 + b * (y - x ^ 2) ^ 2)) /\
+  (forall x y : R, rbn_logp dnumR [x; y] = rb2_logp dnumR 1 100 x y) /\
+  (forall x y z : R,
+     rbn_logp dnumR [x; y; z]
+     = - ((100 * (y - x ^ 2) ^ 2 + (1 - x) ^ 2) + (100 * (z - y ^ 2) ^ 2 + (1 - y) ^ 2))).
+Proof. exact (conj rb2_form (conj rbn_form2 rbn_form3)). Qed.
+
+(* partial derivatives of the 3-dimensional N-D Rosenbrock log-density (the model has no
+   hand-written N-D gradient; this pins the derivative of the modelled density itself) *)
+Theorem C15_rosenbrock_nd3_gradient : forall x y z : R,
+  is_derive (fun t => rbn_logp dnumR [t; y; z]) x (400 * x * (y - x * x) + 2 * (1 - x)) /\
+  is_derive (fun t => rbn_logp dnumR [x; t; z]) y
+            (- 200 * (y - x * x) + 400 * y * (z - y * y) + 2 * (1 - y)) /\
+  is_derive (fun t => rbn_logp dnumR [x; y; t]) z (- 200 * (z - y * y)).
+Proof. exact rbn3_grad. Qed.
+
+(* ---- (5) IsotropicGaussian::logp(from, to) = sum over coordinates of the univariate normal
+   log-density N(to_i; from_i, sigma^2).  No hypothesis on sigma is needed (for sigma = 0 both
+   sides contain the same quotients x / 0); normal_logpdf is the textbook density for sigma <> 0. *)
+Theorem C15_iso_logp : forall (sigma : R) (from to : list R),
+  length from = length to ->
+  iso_logp dnumR sigma from to = iso_logp_spec dnumR sigma from to.
+Proof. exact iso_logp_is_spec. Qed.
+
+Theorem C15_normal_logpdf : forall mu sigma x : R, sigma <> 0 ->
+  normal_logpdf dnumR mu sigma x
+  = - (x - mu) ^ 2 / (2 * sigma ^ 2) - / 2 * ln (2 * PI * sigma ^ 2).
+Proof. exact normal_logpdf_form. Qed.
+
+Theorem C15_iso_symmetric : forall (sigma : R) (from to : list R),
+  length from = length to ->
+  iso_logp dnumR sigma from to = iso_logp dnumR sigma to from.
+Proof. exact iso_logp_sym. Qed.
+
+(* the Target impl is  -1/2 sum x_i^2 / sigma^2, and the proposal density centred at the origin
+   is that unnormalised density plus the constant  -d/2 ln(2 pi sigma^2) *)
+Theorem C15_iso_unnorm :
+  (forall (sigma : R) (xs : list R),
+     iso_unnorm dnumR sigma xs
+     = - / 2 * (fold_left (fun acc x => acc + x * x) xs 0) / (sigma * sigma)) /\
+  (forall (sigma : R) (xs : list R), sigma <> 0 ->
+     iso_logp dnumR sigma (map (fun _ => 0) xs) xs - iso_unnorm dnumR sigma xs
+     = - IZR (Z.of_nat (length xs)) * / 2 * ln (2 * PI * (sigma * sigma))).
+Proof. exact (conj iso_unnorm_form iso_logp_vs_unnorm). Qed.
+
+(* ---- (6) the constant before the repair, ln(pi sigma^4) instead of ln(2 pi sigma^2), violates
+   (5): d = 1, sigma = 2, from = to = [0]:  -1/2 ln(16 pi)  vs  -1/2 ln(8 pi) ---- *)
+Theorem C15_iso_old_constant_refuted : exists (sigma : R) (from to : list R),
+  sigma <> 0 /\ length from = length to /\
+  iso_logp_old dnumR sigma from to <> iso_logp_spec dnumR sigma from to.
+Proof. exact iso_old_refuted_ex. Qed.
+
+(* ---- non-vacuity ---- *)
+(* the covariance a = 4, b = c = 2, d = 3 meets the hypotheses of (2), (3), (4) *)
+Example C15_cov_hypotheses_satisfiable :
+  0 < 4 * 3 - 2 * 2 /\ 4 * 3 - 2 * 2 <> 0 /\ 4 * 3 - 2 * 2 = 8.
+Proof. lra. Qed.
+
+(* identity covariance, mean 0, point (1,1): unnormalised log-density -1, normalised -ln(2 pi) - 1 *)
+Example C15_unnorm_value :
+  g2_unnorm dnumR 0 0 1 0 0 1 1 1 = -1 /\
+  g2_logp dnumR 0 0 1 0 0 1 1 1 = - ln (2 * PI) - 1.
+Proof.
+  split; [|rewrite <- (dg_is_g2 0 0 1 0 0 1 1 1) by lra];
+    unfold g2_unnorm, g2_quad, dg_logp, dg_inv, dg_norm_const, Density.neg, Density.half,
+      Density.c1, Density.c2, Density.z0; cbn;
+    [|replace (1 * 1 - 0 * 0) with 1 by lra; rewrite ln_1]; lra.
+Qed.
+
+(* the repaired constant on the witness of (6): logp(2, [0], [0]) = -1/2 ln(8 pi) *)
+Example C15_iso_value :
+  iso_logp dnumR 2 (0 :: nil) (0 :: nil) = - / 2 * ln (2 * PI * (2 * 2)).
+Proof.
+  unfold iso_logp, iso_exps, Density.neg, Density.sq, Density.half, Density.c1, Density.c2,
+    Density.z0. cbn. lra.
+Qed.
+
+Print Assumptions C15_gauss_norm_vs_unnorm.
+Print Assumptions C15_diffable_is_gauss.
+Print Assumptions C15_gauss_is_gaussian_density.
+Print Assumptions C15_gradients.
+Print Assumptions C15_rosenbrock_forms.
+Print Assumptions C15_rosenbrock_nd3_gradient.
+Print Assumptions C15_iso_logp.
+Print Assumptions C15_normal_logpdf.
+Print Assumptions C15_iso_symmetric.
+Print Assumptions C15_iso_unnorm.
+Print Assumptions C15_iso_old_constant_refuted.
